@@ -49,6 +49,7 @@ def check(model, tier):
     from ..rules import bounds as _bounds
 
     _bounds.r06_7_bound_formulas(ctx, rule="R02.10")
+    sqlplace.r_inner_calculation_name(ctx, "R02.11")
     from ..rules.foundation import run_foundation
 
     run_foundation(ctx, "02")
